@@ -121,8 +121,12 @@ def any_value(rnd, depth=0):
     return out + [streams.ev("objE", "objE")]
 
 
-def stream_for(T, rnd, extras=True, depth=0):
+def stream_for(T, rnd, extras=True, depth=0, nulls=0.0):
+    """nulls > 0: any nested value may be replaced by null (robustness streams only; what null means for a target
+    is not part of the documented mapping the matching-stream properties use)."""
     k = T["k"]
+    if nulls and depth > 0 and rnd.random() < nulls:
+        return [streams.ev("nil", "nil")]
     if k == "named":
         return any_value(rnd, 2)
     if k == "bool":
@@ -136,7 +140,7 @@ def stream_for(T, rnd, extras=True, depth=0):
     if k in SCALARS:
         return [int_event(rnd, k)]
     if k == "ptr":
-        return [streams.ev("nil", "nil")] if rnd.random() < 0.2 else stream_for(T["e"][0], rnd, extras, depth)
+        return [streams.ev("nil", "nil")] if rnd.random() < 0.2 else stream_for(T["e"][0], rnd, extras, depth, nulls)
     if k == "iface":
         return any_value(rnd, depth)
     if k in ("slice", "array"):
@@ -147,14 +151,14 @@ def stream_for(T, rnd, extras=True, depth=0):
             bt = "any"
         out = [streams.ev("arrS", "arrS", (), n if rnd.random() < 0.5 else -1, bt)]
         for _ in range(n):
-            out += stream_for(et, rnd, extras, depth + 1)
+            out += stream_for(et, rnd, extras, depth + 1, nulls)
         return out + [streams.ev("arrE", "arrE")]
     if k == "map":
         n = rnd.randrange(3)
         out = [streams.ev("objS", "objS", (), n if rnd.random() < 0.5 else -1, "any")]
         for j in range(n):
             out.append(streams.ev("key", rnd.choice(["key", "keyref"]), list(b"m%d" % j)))
-            out += stream_for(T["e"][0], rnd, extras, depth + 1)
+            out += stream_for(T["e"][0], rnd, extras, depth + 1, nulls)
         return out + [streams.ev("objE", "objE")]
     if k == "struct":
         members = []
@@ -167,10 +171,10 @@ def stream_for(T, rnd, extras=True, depth=0):
                 if f["t"]["k"] == "struct":
                     for g in f["t"]["f"]:
                         if not skipped(g) and rnd.random() < 0.7:
-                            members.append((fname(g), stream_for(g["t"], rnd, extras, depth + 1)))
+                            members.append((fname(g), stream_for(g["t"], rnd, extras, depth + 1, nulls)))
                 continue
             if rnd.random() < 0.75:
-                members.append((fname(f), stream_for(f["t"], rnd, extras, depth + 1)))
+                members.append((fname(f), stream_for(f["t"], rnd, extras, depth + 1, nulls)))
         if extras:
             for j in range(rnd.randrange(3)):
                 members.insert(rnd.randrange(len(members) + 1), (b"zz%d" % j, any_value(rnd, depth)))
@@ -180,3 +184,36 @@ def stream_for(T, rnd, extras=True, depth=0):
             out += evs
         return out + [streams.ev("objE", "objE")]
     raise ValueError(k)
+
+
+def value_spans(st):
+    """(start, end, depth) of every value in an event stream (end exclusive)."""
+    spans, stack = [], []
+    for n, e in enumerate(st):
+        k = e["k"]
+        if k in ("arrS", "objS"):
+            stack.append(n)
+        elif k in ("arrE", "objE"):
+            b = stack.pop()
+            spans.append((b, n + 1, len(stack)))
+        elif k != "key":
+            spans.append((n, n + 1, len(stack)))
+    return sorted(spans)
+
+
+def null_variants(T, rnd, limit=4):
+    """A matching document for T with one nested value replaced by null - each of up to `limit` positions,
+    always including the first nested value (a null met before anything was allocated for the container)."""
+    st = stream_for(T, rnd, extras=False)
+    for _ in range(4):
+        if len(st) > 2:
+            break
+        st = stream_for(T, rnd, extras=False)
+    inner = [sp for sp in value_spans(st) if sp[2] >= 1]
+    if not inner:
+        return []
+    pick = [inner[0]] + rnd.sample(inner[1:], min(len(inner) - 1, limit - 1))
+    out = []
+    for b, e, _ in pick:
+        out.append(st[:b] + [streams.ev("nil", "nil")] + st[e:])
+    return out
